@@ -11,7 +11,8 @@ open PV PV.Packet
 namespace Gen
 export PV.Generated.C03 (Row outRows inRows build_packet_padding build_packet_length_field build_packet_zero_pad
   send_next_seq read_next_seq read_remaining_etm read_remaining_aead read_bad_blocking read_classic_size
-  write_all_retry_n write_all_zero_limit)
+  write_all_retry_n write_all_zero_limit send_lock_acquire_unconditional send_lock_released_in_finally
+  send_shared_state_outside_lock send_shared_state_inside_lock)
 end Gen
 
 /-! ## the model's kernels are the ones in the source (translated from the AST) -/
@@ -64,6 +65,15 @@ theorem read_sizes_eq_generated (psize block macLen leftover : Nat) :
 EAGAIN `send` the loop continues with `n = 0` (assigned on every retried iteration), and the zero-return limit -/
 theorem write_all_consts_eq_generated :
     ((retryN : Nat) : Int) = Gen.write_all_retry_n ∧ ((zeroLimit : Nat) : Int) = Gen.write_all_zero_limit := by
+  decide
+
+/-- packets of concurrent senders cannot interleave on the wire: `send_message` builds, encrypts, MACs and writes
+each packet inside ONE `__write_lock` region entered by an unconditional blocking `acquire()` and left in a
+`finally`, with no shared-state access outside it (facts read from the AST on every run) — so the wire is a
+concatenation of whole packets, each framed as `send_framing` says -/
+theorem one_write_lock_region_generated :
+    Gen.send_lock_acquire_unconditional = true ∧ Gen.send_lock_released_in_finally = true ∧
+    Gen.send_shared_state_outside_lock = 0 ∧ 0 < Gen.send_shared_state_inside_lock := by
   decide
 
 /-! ## padding bounds and alignment: all payload lengths, all block sizes -/
